@@ -26,6 +26,23 @@ def _mol(data):
 
 
 def replay_sdf(data):
+    bad_all = []
+    cases = [data]
+    if not data.get("_single"):
+        # also: a chain of 70 bonded carbon atoms (138 bond lines: the atom and bond counts fill their 3-column fields and abut)
+        # and 120 unbonded atoms (three-digit atom count)
+        chain = np.c_[1.4 * np.arange(70), 0.3 * (np.arange(70) % 2), np.zeros(70)]
+        cases.append({"Z": [6] * 70, "pos": chain.tolist(), "bonds": True, "_single": True})
+        grid = np.array([[3.1 * (i % 5), 3.1 * ((i // 5) % 5), 3.1 * (i // 25)] for i in range(120)], float)
+        cases.append({"Z": [8] * 120, "pos": grid.tolist(), "_single": True})
+    for d in cases:
+        r, b = _replay_sdf_one(d)
+        if r:
+            bad_all += ["%d atoms%s: %s" % (len(d["Z"]), " with bonds" if d.get("bonds") else "", x) for x in b[:2]]
+    return bool(bad_all), bad_all[:3]
+
+
+def _replay_sdf_one(data):
     import os
     import tempfile
     from chmpy.core.molecule import Molecule
